@@ -66,6 +66,9 @@ def run(tier):
     from . import c20
     from .common import Relabel
     c20._b_key_params(Relabel(chk, {"C20.b": "C15.e-cache"}), [x for x in c20._sites() if x.cls.name == "_SynodicMapDynamicsService"])
+    # the public facade binds every argument to the service parameter it is meant for (nominal swap rule, rules/common.py)
+    from . import common as _common
+    _common.facade_bindings(chk, "C15.e-facade", ['hiten.system.maps.synodic'], floor=8)
     return chk
 
 
